@@ -21,6 +21,9 @@ import (
 )
 
 // curve order r minus one: the largest secret key
+// repetitions of every map-ranging tbls call
+const reps = 4
+
 const maxSecretHex = "73eda753299d7d483339d80809a1d80553bda402fffe5bfeffffffff00000000"
 
 func TestExec(t *testing.T) {
@@ -53,6 +56,22 @@ func (s *state) idOf(rank int) int {
 		}
 	}
 	return mx + 1 + (rank - len(s.ids) - 1)
+}
+
+// reorder returns the ids in the r-th of a few different orders (ascending, descending, rotated ...): small Go maps
+// are iterated in insertion order from a random offset, so fresh maps filled in different orders show the tbls
+// functions different iteration orders.
+func reorder(ids []int, r int) []int {
+	out := append([]int{}, ids...)
+	sort.Ints(out)
+	k := (r / 2) % max(len(out), 1)
+	out = append(out[k:], out[:k]...)
+	if r%2 == 1 {
+		for i, j := 0, len(out)-1; i < j; i, j = i+1, j-1 {
+			out[i], out[j] = out[j], out[i]
+		}
+	}
+	return out
 }
 
 func ints(v any) []int {
@@ -179,15 +198,29 @@ func doRecover(tr *drv.Tracer, st *state, step drv.Step) {
 		}
 		pubs[id] = p2
 	}
-	rec, err := tbls.RecoverSecret(keys, uint(st.n), uint(st.t))
-	if err != nil {
-		failed = true
+	// the recovery functions range over a Go map: repeat them so that several iteration orders are seen
+	secretEq, pubEq := true, true
+	var kid []int
+	for id := range keys {
+		kid = append(kid, id)
 	}
-	rpub, err := tbls.RecoverPubkey(pubs)
-	if err != nil {
-		failed = true
+	for r := range reps {
+		km, pm := map[int]tbls.PrivateKey{}, map[int]tbls.PublicKey{}
+		for _, id := range reorder(kid, r) {
+			km[id], pm[id] = keys[id], pubs[id]
+		}
+		rec, err := tbls.RecoverSecret(km, uint(st.n), uint(st.t))
+		if err != nil {
+			failed = true
+		}
+		rpub, err := tbls.RecoverPubkey(pm)
+		if err != nil {
+			failed = true
+		}
+		secretEq = secretEq && rec == st.secret
+		pubEq = pubEq && rpub == st.groupPub
 	}
-	tr.Emit(drv.Step{"ev": "Recover", "S": S, "err": failed, "secretEq": rec == st.secret, "pubEq": rpub == st.groupPub})
+	tr.Emit(drv.Step{"ev": "Recover", "S": S, "err": failed, "secretEq": secretEq, "pubEq": pubEq})
 }
 
 func doCombine(tr *drv.Tracer, st *state, step drv.Step) {
@@ -241,12 +274,29 @@ func doCombine(tr *drv.Tracer, st *state, step drv.Step) {
 		}
 		partials[fileUnder] = back
 	}
-	agg, aggErr := tbls.ThresholdAggregate(partials)
 	direct, err := tbls.Sign(st.secret, msg)
 	if err != nil {
 		failed = true
 	}
-	verifies := aggErr == nil && tbls.Verify(st.groupPub, msg, agg) == nil
-	tr.Emit(drv.Step{"ev": "Combine", "S": S, "sub": sub, "msg": step["msg"], "setupErr": failed, "aggErr": aggErr != nil,
-		"altered": altered, "aggEq": aggErr == nil && agg == direct, "verifies": verifies})
+	// ThresholdAggregate ranges over a Go map: repeat it so that several iteration orders are seen.  "All": every
+	// repetition showed the relation, "Any": at least one did.
+	aggErr, eqAll, eqAny, verAll, verAny := false, true, false, true, false
+	var pid []int
+	for id := range partials {
+		pid = append(pid, id)
+	}
+	for r := range reps {
+		pm := map[int]tbls.Signature{}
+		for _, id := range reorder(pid, r) {
+			pm[id] = partials[id]
+		}
+		agg, err := tbls.ThresholdAggregate(pm)
+		eq := err == nil && agg == direct
+		ver := err == nil && tbls.Verify(st.groupPub, msg, agg) == nil
+		aggErr = aggErr || err != nil
+		eqAll, eqAny = eqAll && eq, eqAny || eq
+		verAll, verAny = verAll && ver, verAny || ver
+	}
+	tr.Emit(drv.Step{"ev": "Combine", "S": S, "sub": sub, "msg": step["msg"], "setupErr": failed, "aggErr": aggErr,
+		"altered": altered, "aggEqAll": eqAll, "aggEqAny": eqAny, "verifiesAll": verAll, "verifiesAny": verAny})
 }
